@@ -17,7 +17,7 @@ REQUIRED = ['gregory_subtract_exact', 'gregory_split_equal', 'gregory_meets_spec
             'elected_only_by_quota_or_last_standing', 'retained_count_formula', 'eliminates_exactly_lowest',
             'exhausted_pile_never_contender', 'removed_after_election_are_elected']
 NAME_MODES = ['str', 'int0', 'empty0', 'person', 'tuple']
-REQUIRED_COUNTERS = ['surplus_transfer', 'exhausted_pile_gt_candidate', 'shared_first_rank', 'zero_first_pref_candidate',
+REQUIRED_COUNTERS = ['selector_next_count', 'selector_next_count_answered', 'surplus_transfer', 'exhausted_pile_gt_candidate', 'shared_first_rank', 'zero_first_pref_candidate',
                      'eliminate_step_-2', 'mandatory_quota', 'multi_seat_candidate', 'hare_draw', 'shortcut',
                      'elimination', 'refusal', 'fraction_weights', 'stv_next', 'stv_nth', 'distributor',
                      # generator audit (harness/GENERATOR_CHECKLIST.md)
@@ -70,6 +70,29 @@ def _tag(case, *tags):
             ts.append(t)
 
 
+def _selector_next(case, votes, n):
+    """the selector's own count API (TransferableVoteSelector.next_count, sequential.py L429-458) driven from initial_allocation,
+    next to the distributor's count under caps of one seat (which the model covers): (got, expected); Gregory only (no draws)"""
+    import votelib.evaluate.sequential as seq
+    import votelib.util as vutil
+
+    def one(run):
+        try:
+            a, e = call_with_timeout(run, 5)
+            names = sorted(NAMES.i(c) for c in (e if isinstance(e, list) else list(e)))
+            return {'alloc': enc_alloc(a), 'elected': names}
+        except Exception as ex:      # noqa
+            return {'err': err_name(ex), 'msg': str(ex)[:160]}
+    total = sum(votes.values())
+    d1 = make_distributor(case)
+    sel = seq.TransferableVoteSelector(d1)
+    got = one(lambda: sel.next_count(seq.initial_allocation(votes, d1.transferer), n, total, []))
+    d2 = make_distributor(case)
+    caps = {c: 1 for c in vutil.all_ranked_candidates(votes)}
+    exp = one(lambda: d2.next_count(seq.initial_allocation(votes, d2.transferer), n, total, prev_gains={}, max_seats=caps))
+    return got, exp
+
+
 def _run_trace(case):
     import votelib.evaluate.sequential as seq
     votes = py_votes(case)
@@ -112,8 +135,11 @@ def _run_trace(case):
     for rec in counts:
         if rec.get('quota') is not None:
             quota = rec['quota']
+    selnext = None
+    if selector and case.get('method') == 'gregory' and not case.get('warmup'):
+        selnext = _selector_next(case, votes, n)
     return {'init': init, 'counts': out_counts, 'result': result, 'quota': quota,
-            '_detail': counts, '_draws': draws, '_bad_draws': bad + dr0.bad, '_msg': msg}
+            '_detail': counts, '_draws': draws, '_bad_draws': bad + dr0.bad, '_msg': msg, '_selnext': selnext}
 
 
 def _run_next(case):
@@ -221,6 +247,10 @@ def _retag_trace(case, obs):
         _tag(case, 'eliminate_step_-2')
     if case.get('mandatory'):
         _tag(case, 'mandatory_quota')
+    if obs.get('_selnext'):
+        _tag(case, 'selector_next_count')
+        if 'err' not in obs['_selnext'][1]:
+            _tag(case, 'selector_next_count_answered')
     if any(Fraction(w).denominator != 1 for _, w in case['votes']):
         _tag(case, 'fraction_weights')
     if any(b and isinstance(b[0], list) for b, _ in case['votes']):
@@ -468,6 +498,13 @@ def _oracle_trace(case, obs):
         out.append((budget_clause(res['err']), str(obs.get('_msg'))))
         if res['err'] == 'CaseExceedsTimeBudget':
             return out
+    if obs.get('_selnext'):
+        got, exp = obs['_selnext']
+        same = (got.get('err') == exp.get('err')) if ('err' in got or 'err' in exp) else (
+            canon_alloc(got['alloc']) == canon_alloc(exp['alloc']) and got['elected'] == exp['elected'])
+        if not same:
+            out.append(('selector_next_count_differs',
+                        f"TransferableVoteSelector.next_count from the initial allocation gives {got}, the count itself is {exp}"[:600]))
     overshoot = _overshoot(case, obs['_detail'])
     allowed = _allowed_errors(case)
     if isinstance(res, dict) and 'err' in res and res['err'] not in allowed and not overshoot:
